@@ -4,6 +4,7 @@
 -/
 import G9Proofs.Lemmas.KindInv
 import G9Proofs.Lemmas.WirePack
+import G9.Version
 namespace G9.C12
 open G9 G9.Srv
 
@@ -125,5 +126,54 @@ theorem frame_size_gate (t : Msg) :
     (stepFrame cfg impl c t = none ↔ c.msize.toNat < (Spec.encode c.dotu 0 t).length) := by
   unfold stepFrame
   split <;> simp_all
+
+
+/-! ### both directions: the client's `Connect` against the framework -/
+
+theorem v_ne : (v9P2000 == v9P2000u) = false := by decide
+
+/-- The whole exchange on a fresh connection, for every client msize that can carry an I/O header
+    and every combination of what the two sides speak: client and server end up with the same
+    msize, min(client, server), and the same dialect, 9P2000.u exactly when both asked for it. -/
+theorem both_sides_agree (cm : UInt32) (cdotu : Bool) (h : 24 ≤ cm.toNat) (hs : 24 ≤ cfg.srvMsize.toNat) :
+    ∃ m d sc, Version.connect cfg impl cm cdotu = some ((m, d), sc) ∧
+      sc.msize = m ∧ sc.dotu = d ∧
+      m.toNat = min cm.toNat cfg.srvMsize.toNat ∧ d = (cdotu && cfg.srvDotu) := by
+  obtain ⟨_, h2⟩ := negotiate_spec cfg impl (Conn.init cfg) cm (Version.clientVersion cdotu)
+  obtain ⟨m, du, hpre, hmin, hdu⟩ := h2 h
+  have hm24 : 24 ≤ m.toNat := by
+    have : (Conn.init cfg).msize = cfg.srvMsize := rfl
+    rw [this] at hmin; omega
+  have hfit := rversion_fits du m hm24
+  have hstep : (step cfg impl (Conn.init cfg) (.tversion cm (Version.clientVersion cdotu))) =
+      ({ (Conn.init cfg) with msize := m, dotu := du },
+       { calls := [], reply := .r (.rversion m (if du then v9P2000u else v9P2000)), destroyed := [] }) := by
+    unfold step
+    rw [hpre]
+    simp [fitReply, hfit, decRefs, Conn.init]
+  have hduv : du = (cdotu && cfg.srvDotu) := by
+    rw [hdu]; unfold Version.clientVersion
+    cases cdotu <;> simp [v_ne]
+  have hmsrv : m.toNat = min cm.toNat cfg.srvMsize.toNat := by
+    have : (Conn.init cfg).msize = cfg.srvMsize := rfl
+    rw [this] at hmin; exact hmin
+  refine ⟨m, du, { (Conn.init cfg) with msize := m, dotu := du }, ?_, rfl, rfl, hmsrv, hduv⟩
+  unfold Version.connect
+  rw [hstep]
+  simp only [Version.clientAfter]
+  -- the client keeps the smaller of its own msize and the server's answer: that is the answer
+  have hcm : (if m < cm then m else cm) = m := by
+    by_cases hlt : m < cm
+    · rw [if_pos hlt]
+    · rw [if_neg hlt]
+      apply UInt32.toNat_inj.mp
+      have : ¬ m.toNat < cm.toNat := fun hh => hlt (UInt32.lt_iff_toNat_lt.mpr hh)
+      omega
+  rw [hcm]
+  -- and the dialect: the server answers .u only if it was asked and speaks it
+  have hd2 : ((if du = true then v9P2000u else v9P2000) == v9P2000u && cdotu) = du := by
+    rw [hduv]
+    cases cdotu <;> cases cfg.srvDotu <;> simp [v_ne]
+  rw [hd2]
 
 end G9.C12
